@@ -227,13 +227,14 @@ Definition ex_query : packet :=
      p_answers := []; p_authority := []; p_additional := [] |}.
 
 (* a registration received on the wire is reachable and a later query gets the registered owner back *)
+Definition ex_t1 : table := match respond [] ex_reg with Ok (_, t) => t | _ => [] end.
 Example C18_example_register_then_query :
-  exists r1 t1 r2, respond [] ex_reg = Ok (r1, t1) /\ reachable t1 /\
-    respond t1 ex_query = Ok (r2, t1) /\ h_id (p_hdr r2) = 4660%N /\
+  exists r1 r2, respond [] ex_reg = Ok (r1, ex_t1) /\ reachable ex_t1 /\
+    respond ex_t1 ex_query = Ok (r2, ex_t1) /\ h_id (p_hdr r2) = 4660%N /\
     map rr_rdata (p_answers r2) = [ex_owner] /\ h_an (p_hdr r2) = 1%N /\ rcode (h_flags (p_hdr r2)) = 0%N.
 Proof.
-  do 3 eexists. split; [vm_compute; reflexivity|]. split.
-  - eapply reach_respond; [apply reach_empty|vm_compute; reflexivity].
+  do 2 eexists. split; [vm_compute; reflexivity|]. split.
+  - eapply (reach_respond [] ex_reg _ ex_t1 reach_empty). vm_compute. reflexivity.
   - vm_compute. repeat split; reflexivity.
 Qed.
 
@@ -257,4 +258,8 @@ Example C18_example_shutdown_tcp :
   twf s /\
   (* the second connection is accepted while Stop is running and is not yet stored when Stop walks the map *)
   tcp_stopped (trun s ([TAcc; TStop; TAcc; TStop; TStop] ++ [TAcc; TAcc] ++ [TConn 0; TConn 1; TConn 0; TConn 1] ++ [TStop])).
-Proof. vm_compute. repeat split; reflexivity. Qed.
+Proof.
+  split.
+  - split; [|exact I]. repeat constructor. unfold cK; cbn; congruence.
+  - vm_compute. repeat split; reflexivity.
+Qed.
